@@ -35,9 +35,15 @@ pub fn build(target: &str) -> Result<std::path::PathBuf, String> {
 
 /// Run `jobs` independent libFuzzer processes, `runs` executions each.
 pub fn campaign(ctx: &RunCtx, target: &str, jobs: u64, runs: u64, max_len: usize, seeds: &[Vec<u8>]) -> Result<Campaign, String> {
+    campaign_env(ctx, target, None, jobs, runs, max_len, seeds)
+}
+
+/// `prop`: value of FRV_FUZZ_PROP for the generic target `fuzz_prop`
+pub fn campaign_env(ctx: &RunCtx, target: &str, prop: Option<&str>, jobs: u64, runs: u64, max_len: usize, seeds: &[Vec<u8>]) -> Result<Campaign, String> {
     let bin = build(target)?;
-    let base = format!("{}/corpus/{}-seed{}", fuzz_dir(), target, ctx.seed);
-    let art = format!("{}/artifacts/{}/", fuzz_dir(), target);
+    let tag = prop.map_or(target.to_string(), |p| format!("{}-{}", target, p));
+    let base = format!("{}/corpus/{}-seed{}", fuzz_dir(), tag, ctx.seed);
+    let art = format!("{}/artifacts/{}/", fuzz_dir(), tag);
     let _ = std::fs::remove_dir_all(&base);
     let _ = std::fs::remove_dir_all(&art);
     std::fs::create_dir_all(&art).map_err(|e| e.to_string())?;
@@ -52,7 +58,11 @@ pub fn campaign(ctx: &RunCtx, target: &str, jobs: u64, runs: u64, max_len: usize
             }
         }
         let seed = 1 + (hash64(&(ctx.seed, target, j)) % 0x7fff_fff0);
-        let child = Command::new(&bin)
+        let mut cmd = Command::new(&bin);
+        if let Some(p) = prop {
+            cmd.env("FRV_FUZZ_PROP", p);
+        }
+        let child = cmd
             .arg(&dir)
             .arg(format!("-runs={}", runs))
             .arg(format!("-seed={}", seed))
@@ -101,7 +111,7 @@ pub fn campaign(ctx: &RunCtx, target: &str, jobs: u64, runs: u64, max_len: usize
     Ok(Campaign {
         runs_done,
         artifacts,
-        evidence: json!({"target": target, "jobs": jobs, "runs_per_job": runs, "executions": runs_done, "max_len": max_len, "seeds": seeds.len(), "edge_coverage": cov, "features": ft, "largest_corpus": corpus, "jobs_ended_abnormally": failed_jobs, "slow_or_timeout_units_ignored": slow}),
+        evidence: json!({"target": tag, "jobs": jobs, "runs_per_job": runs, "executions": runs_done, "max_len": max_len, "seeds": seeds.len(), "edge_coverage": cov, "features": ft, "largest_corpus": corpus, "jobs_ended_abnormally": failed_jobs, "slow_or_timeout_units_ignored": slow}),
     })
 }
 
